@@ -121,7 +121,16 @@ def plant_reified(rng, node, rm, counter=None):
                               rng.choice(['8', '"t"', 'kk', (f'rx{counter[0]}', [('/', 'thing')])]))]
                 elif y < 0.22:
                     extra = [(rng.choice([':polarity', ':ARG3', ':x']), '-')]
-                out.append((sr + '-of', (rf, [('/', concept), (tr, t)] + extra)))
+                if not isinstance(t, tuple) and not extra and rng.random() < 0.2:
+                    # the same relation twice: directly (aligned) and as a collapsible relation node whose
+                    # concept and argument role are aligned too - dereification meets an equal triple
+                    from pmon.ref import interp as _interp
+                    plain = _interp.split_atom(t)[0]
+                    out.append((base + '~1', t))
+                    out.append((sr + '-of', (rf, [('/', concept + '~2'), (tr + '~4', plain)])))
+                    counter.append('twin')
+                else:
+                    out.append((sr + '-of', (rf, [('/', concept), (tr, t)] + extra)))
         else:
             out.append((r, t))
     return (v, out)
